@@ -1,7 +1,7 @@
 """C08 - data retention on down servers, frozen servers, blacklisting."""
 from mc.props import _cellprop
 from mc.props import _masterprop
-from mc.worlds import cellcfg, cellmon, mastercfg
+from mc.worlds import mastermon, cellcfg, cellmon, mastercfg
 
 BUDGET = {'quick': 240, 'thorough': 2400}
 
@@ -35,6 +35,7 @@ def _m1():
     cfg = mastercfg.m1()
     cfg['idgroups'] = {}
     cfg['cellmonitors'] = [cellmon.mon_c08]
+    cfg['monitors'] = [mastermon.mon_c08_start]
     cfg['templates'] = {
         'sm': {'memory': '3M', 'cpu': '3%', 'disk': '3M', 'affinity': 'a',
                'data_retention_timeout': '30s'},
